@@ -93,6 +93,13 @@ def rangeS (pm : List Param) : Stmt → Frame → Bool
   | .unknown _, _ => true
   | .prim _, _ => true
   | .loadCell r c, s => exR pm s [] r && exR pm s [] c
+  | .tabsNew, _ => true
+  | .tabsAppendTab, _ => true
+  | .tabsStore, _ => true
+  | .tabsClear, _ => true
+  | .tabsPushCol, _ => true
+  | .forTabs _, _ => false        -- not analysed
+  | .forTabsDown _, _ => false    -- not analysed
   | st, s => rangeG pm s st []
 
 def rangeBody (b : Body) (pm : List Param) (args : List Int) (e : Emu) : Bool :=
